@@ -177,7 +177,7 @@ func buildCatalogue() []item {
 		add("leaf-eku-"+e.n, false, csLeaf, func(d *desc, pos int) { d.specs[0].EKU = []x509.ExtKeyUsage{x509.ExtKeyUsageCodeSigning, e.e} })
 		add("leaf-eku-only-"+e.n, false, csLeaf, func(d *desc, pos int) { d.specs[0].EKU = []x509.ExtKeyUsage{e.e} })
 	}
-	for _, k := range []string{"rsa1024", "p224", "ed25519"} {
+	for _, k := range []string{"rsa1024", "rsa1536", "rsa2560", "rsa3584", "p224", "ed25519"} {
 		k := k
 		add("leaf-key-"+k, false, leafOnly, func(d *desc, pos int) { d.specs[0].Key = pki.K(k, 0) })
 	}
